@@ -16,7 +16,8 @@ pub struct VT(pub u8);
 impl VT {
     pub fn text(&self) -> &'static str {
         let i = (self.0 % NCODES) as usize;
-        &POOL[i..i + 1]
+        // POOL is ASCII: every index is a char boundary
+        unsafe { POOL.get_unchecked(i..i + 1) }
     }
     pub fn is_bn(&self) -> bool {
         self.0 % NCODES >= 6
@@ -78,16 +79,18 @@ impl std::error::Error for IdxErr {}
 
 pub const DEFAULT_GRAPH: u16 = u16::MAX;
 
+/// ensure_index fails for this code ("index full" stand-in); NCODES = never. A global, because the stores
+/// keep their term index private.
+pub static mut FULL_FOR: u8 = NCODES;
+
 #[derive(Debug, Clone, Copy)]
 pub struct VTI {
     /// which codes have been handed out by ensure_index
     pub known: [bool; NCODES as usize],
-    /// ensure_index fails for this code ("index full" stand-in); NCODES = never
-    pub full_for: u8,
 }
 impl Default for VTI {
     fn default() -> Self {
-        VTI { known: [false; NCODES as usize], full_for: NCODES }
+        VTI { known: [false; NCODES as usize] }
     }
 }
 
@@ -102,7 +105,7 @@ impl TermIndex for VTI {
     }
     fn ensure_index<T: Term>(&mut self, t: T) -> Result<u16, IdxErr> {
         let c = code_of(t).ok_or(IdxErr)?;
-        if c == self.full_for {
+        if c == unsafe { FULL_FOR } && !self.known[c as usize] {
             return Err(IdxErr);
         }
         self.known[c as usize] = true;
